@@ -50,6 +50,7 @@ type interpreter struct {
 	funcsRun           map[*ssa.Function]int  // yardl functions executed (instruction counts)
 	depth              int
 	inInit             bool
+	sentinels          map[string]value // well-known error variables of foreign packages (io.EOF, filepath.SkipDir, ...)
 	boundDepth         int   // verifBounded: absolute call-depth limit of the enclosing bounded call (0 = none)
 	boundSteps         int64 // verifBounded: absolute instruction limit of the enclosing bounded call (0 = none)
 	sched              *sched // nil until the target starts a goroutine / arms a timer / makes a channel
@@ -92,6 +93,9 @@ func (fr *frame) get(key ssa.Value) value {
 			return r
 		}
 		cell := zero(mustDeref(key.Type()))
+		if sv, ok := fr.i.sentinelGlobal(key); ok {
+			cell = sv
+		}
 		fr.i.globals[key] = &cell
 		return &cell
 	}
